@@ -95,13 +95,12 @@ pub fn run(args: &[String]) {
                 let order: Vec<usize> = perm.iter().map(|&j| set[j]).collect();
                 rep.evaluations += 1;
                 let got = guarded(|| {
-                    let mut acc = texts[order[0]].clone();
-                    for &i in &order[1..] {
-                        rep_transition();
-                        // `merge` returns what is written *after* the notice
-                        acc = format!("{}{}", hooks::NOTE, hooks::merge(acc, texts[i].clone()));
-                    }
-                    Ok(acc)
+                    // the file that holds exactly these types, handed over in this order
+                    let items: Vec<(String, String)> = order
+                        .iter()
+                        .map(|&i| ((types[i].ident)(), texts[i].clone()))
+                        .collect();
+                    Ok(hooks::merge(&items))
                 });
                 rep.transitions += (k - 1) as u64;
                 let names: Vec<&str> = order.iter().map(|&i| types[i].rust).collect();
